@@ -94,6 +94,10 @@ fn measure(case: &Case, total: usize, files: usize, piece: usize, interleave: bo
     let m = heap_mark();
     let w = s.write(&case.cfg, &ops, sink.clone());
     let (pw, _) = m.measure();
+    // what the HARNESS itself allocated while the write was measured - one result per call, one mark per flush, in
+    // vectors that double (old and new buffer alive together at the peak) - is not the library's: taken off
+    let own = (w.results.capacity() * std::mem::size_of::<Result<u64, String>>() + w.flush_marks.capacity() * std::mem::size_of::<(usize, usize)>() + sink.flush_marks().len() * 2 * std::mem::size_of::<usize>()) * 3 / 2;
+    let pw = pw.saturating_sub(own);
     if w.panic.is_some() || w.from_config_err.is_some() || w.results.iter().any(Result::is_err) {
         v.push(Violation::new("workload-write-failed", "write", format!("writing the workload failed: panic {:?}, from_config {:?}, first failed call {:?}", w.panic, w.from_config_err, w.results.iter().find(|r| r.is_err()))));
         let _ = std::fs::remove_file(&spill);
